@@ -94,7 +94,7 @@ Lemma chk_C02_step_model cfg s e s' acts : inv cfg s -> step cfg s e = (s', acts
   chk_C02_step (listing_of s) {| os_ev := e; os_acts := acts; os_allocs := listing_of s' |} = true.
 Proof.
   intros _ Hs. unfold chk_C02_step. cbn [os_ev os_acts].
-  destruct e as [src tid c rq unk|src p dat|src n dat|relay from dat|dt|relay|csrc|];
+  destruct e as [src tid c rq unk|src p dat|src n dat|relay from dat|dt|relay|csrc| |];
     try (rewrite (todata_nil_of _ _ _ _ _ Hs I); reflexivity).
   cbn [step] in Hs. apply h_peer_spec in Hs as [_ [->|(a & Hf & _ & _ & [(c & Hc & ->)|(_ & pm & Hp & ->)])]]; [reflexivity| |].
   - cbn [todata filter]. rewrite listing_of_map, find_orelay_listing, Hf. cbn [option_map obs_of oa_client].
@@ -145,14 +145,15 @@ Proof.
   - apply IH. intros Hc. apply H. right. exact Hc.
 Qed.
 
-Lemma ended_ok_model cfg s e s' acts : inv cfg s -> step cfg s e = (s', acts) -> ended_ok e (listing_of s') = true.
+Lemma ended_ok_model cfg s e s' acts : inv cfg s -> step cfg s e = (s', acts) -> ended_ok e acts (listing_of s') = true.
 Proof.
-  intros [Hnd _] Hs. destruct e as [| | | | | |csrc|]; try reflexivity; cbn [step] in Hs; cbn [ended_ok].
+  intros [Hnd _] Hs. destruct e as [| | | | | |csrc| |]; try reflexivity; cbn [step] in Hs; cbn [ended_ok].
   - unfold h_ctl_close in Hs. rewrite listing_of_map.
     destruct (find_alloc csrc (allocs s)) as [a|] eqn:Hf; inversion Hs; subst; cbn [allocs set_allocs].
     + apply find_alloc_some in Hf as [_ Hc]. rewrite Hc. rewrite no_client_listing; [reflexivity|].
       apply remove_alloc_gone. assumption.
     + apply find_alloc_none in Hf. rewrite no_client_listing; [reflexivity|assumption].
+  - inversion Hs; subst. reflexivity.
   - inversion Hs; subst. reflexivity.
 Qed.
 
@@ -234,7 +235,7 @@ Proof.
   assert (Repl : forall a x, In a (allocs s) -> same_id a x -> In a' (replace_alloc x (allocs s)) ->
             (exists a0, In a0 (allocs s) /\ same_id a0 a') \/ fresh_alloc cfg s e a').
   { intros a x Ha Hs Hi. left. apply replace_alloc_in in Hi as [->|Hi]; [exists a; auto|exists a'; split; [exact Hi|apply same_id_refl]]. }
-  destruct e as [src tid c r unk|src p d|src n d|relay from d|dt|relay|csrc|]; cbn [step] in H.
+  destruct e as [src tid c r unk|src p d|src n d|relay from d|dt|relay|csrc| |]; cbn [step] in H.
   - destruct unk; [inversion H; subst; apply Same; reflexivity|].
     destruct r as [tr lt fam df rp ep rt mt|lt fam|peers|n p|]; try (inversion H; subst; apply Same; reflexivity);
       destruct (authenticate cfg s c) as [uid|code ch]; try (inversion H; subst; apply Same; reflexivity).
@@ -279,6 +280,7 @@ Proof.
   - unfold h_ctl_close in H. destruct (find_alloc csrc (allocs s)) as [a|]; inversion H; subst; [|apply Same; reflexivity].
     cbn [allocs set_allocs] in Hin. left. apply remove_alloc_in in Hin. exists a'. split; [exact Hin|apply same_id_refl].
   - inversion H; subst. destruct Hin.
+  - inversion H; subst. apply Same; reflexivity.
 Qed.
 
 (* the generic lift with an additional invariant *)
@@ -335,7 +337,7 @@ Proof.
     rewrite listing_of_map. apply forallb_forall. intros o Ho. apply in_map_iff in Ho as (a & <- & Ha).
     unfold relfam in Hr'. rewrite Forall_forall in Hall, Hr'. apply installed_ok_obs; auto. }
   rewrite Hinst. cbn [andb].
-  destruct e as [src tid c rq unk|src p dat|src n dat|relay from dat|dt|relay|csrc|];
+  destruct e as [src tid c rq unk|src p dat|src n dat|relay from dat|dt|relay|csrc| |];
     try (rewrite (topeers_nil_of _ _ _ _ _ Hs I); reflexivity).
   - cbn [step] in Hs. apply h_send_spec in Hs as [_ [->|(a & q & d & pm & -> & -> & -> & Hf & Hp & _)]]; [destruct p as [[?|]|], dat; reflexivity|].
     cbn [topeers filter]. rewrite listing_of_map, find_oalloc_listing, Hf. cbn [option_map obs_of oa_relay].
@@ -444,7 +446,7 @@ Proof.
   { pose proof (inv_step _ _ _ _ _ Hinv Hs) as [_ Hall]. rewrite listing_of_map. apply forallb_forall.
     intros o Ho. apply in_map_iff in Ho as (a & <- & Ha). rewrite Forall_forall in Hall. eapply bijective_obs; eauto. }
   rewrite Hbij, (chandata_out_valid _ _ _ _ _ Hinv Hs). cbn [andb].
-  destruct e as [src tid c rq unk|src p dat|src n dat|relay from dat|dt|relay|csrc|]; try reflexivity.
+  destruct e as [src tid c rq unk|src p dat|src n dat|relay from dat|dt|relay|csrc| |]; try reflexivity.
   destruct rq as [? ? ? ? ? ? ? ?|? ?|?|num peer|]; try reflexivity.
   destruct num as [| |n]; try reflexivity. destruct peer as [[p|]|]; try reflexivity. destruct unk; [reflexivity|].
   rewrite listing_of_map, find_oalloc_listing. destruct (find_alloc src (allocs s)) as [a|] eqn:Hf; [|reflexivity].
@@ -594,7 +596,7 @@ Proof.
   assert (Same : s' = s -> NoDup (map a_relay (allocs s'))) by (intros ->; exact Hu).
   assert (Repl : forall a x, In a (allocs s) -> same_id a x -> NoDup (map a_relay (replace_alloc x (allocs s)))).
   { intros a x Ha (Hc & Hr & _). rewrite (replace_alloc_map_relay a x); auto. }
-  destruct e as [src tid c r unk|src p d|src n d|relay from d|dt|relay|csrc|]; cbn [step] in H.
+  destruct e as [src tid c r unk|src p d|src n d|relay from d|dt|relay|csrc| |]; cbn [step] in H.
   - destruct unk; [inversion H; subst; apply Same; reflexivity|].
     destruct r as [tr lt fam df rp ep rt mt|lt fam|peers|n p|]; try (inversion H; subst; apply Same; reflexivity);
       destruct (authenticate cfg s c) as [uid|code ch]; try (inversion H; subst; apply Same; reflexivity).
@@ -634,6 +636,7 @@ Proof.
   - unfold h_ctl_close in H. destruct (find_alloc csrc (allocs s)) as [a|]; inversion H; subst; [|apply Same; reflexivity].
     cbn [allocs set_allocs]. apply remove_alloc_relays. exact Hu.
   - inversion H; subst. cbn. constructor.
+  - inversion H; subst. apply Same; reflexivity.
 Qed.
 
 Lemma no_error_in_life l d m t c ch : Forall RelayGates.is_life l -> ~ In (Error d m t c ch) l.
@@ -707,7 +710,7 @@ Qed.
 Lemma replies_nil_non_req cfg s e s' acts : step cfg s e = (s', acts) ->
   match e with EReq _ _ _ _ _ => False | _ => True end -> replies acts = [].
 Proof.
-  intros Hs Hne. destruct e as [src tid c r unk|src p d|src n d|relay from d|dt|relay|csrc|]; [contradiction| | | | | | |]; cbn [step] in Hs.
+  intros Hs Hne. destruct e as [src tid c r unk|src p d|src n d|relay from d|dt|relay|csrc| |]; [contradiction| | | | | | | |]; cbn [step] in Hs.
   - apply h_send_spec in Hs as [_ [->|(a & q & dd & pm & -> & _)]]; reflexivity.
   - apply h_chandata_spec in Hs as [_ [->|(a & c & -> & _)]]; reflexivity.
   - apply h_peer_spec in Hs as [_ [->|(a & _ & _ & _ & [(c & _ & ->)|(_ & pm & _ & ->)])]]; reflexivity.
@@ -717,6 +720,7 @@ Proof.
     apply replies_life. apply close_events_life.
   - apply replies_life. eapply h_ctl_close_life; eauto.
   - apply replies_life. eapply h_srv_close_life; eauto.
+  - inversion Hs; subst. reflexivity.
 Qed.
 
 Lemma chk_C19_step_model cfg s e s' acts :
@@ -724,7 +728,7 @@ Lemma chk_C19_step_model cfg s e s' acts :
   chk_C19_step (listing_of s) {| os_ev := e; os_acts := acts; os_allocs := listing_of s' |} = true.
 Proof.
   intros Hinv Hu Hca Henv Hs. unfold chk_C19_step. cbn [os_ev os_acts os_allocs].
-  destruct e as [src tid c r unk|src p d|src n d|relay from d|dt|relay|csrc|];
+  destruct e as [src tid c r unk|src p d|src n d|relay from d|dt|relay|csrc| |];
     try (rewrite (replies_nil_non_req _ _ _ _ _ Hs I); reflexivity).
   destruct (req_shape _ _ _ _ _ _ _ _ _ Hs) as (evs & tail & Eacts & Hlife & Htail).
   rewrite Eacts, replies_app, (replies_life _ Hlife). cbn [app].
@@ -852,7 +856,7 @@ Proof.
   pose proof (inv_step _ _ _ _ _ Hinv Hs) as Hinv'.
   pose proof (seen_pres _ _ _ _ _ _ Hinv Hs Hs1 Hp1) as Hdef.
   assert (Default : chk_C19_cache seen1 (listing_of s') (model_trace cfg s' r) = true) by (apply IH; assumption).
-  destruct e as [src tid c rq unk|src p d|src n d|relay from d|dt|relay|csrc|]; try exact Default.
+  destruct e as [src tid c rq unk|src p d|src n d|relay from d|dt|relay|csrc| |]; try exact Default.
   destruct rq as [tr lt fam df rp ep rt mt|? ?|?|? ?|]; try exact Default.
   destruct (req_shape _ _ _ _ _ _ _ _ _ Hs) as (evs & tail & Eacts & Hlife & Htail). cbn [req_method] in Htail.
   rewrite Eacts, replies_app, (replies_life _ Hlife). cbn [app].
